@@ -1,11 +1,19 @@
 // Command c05 executes circuit-breaker scenarios (C05, C12, C18) against the real cbreaker package.
 //
 //	cfg fb=<ns> rec=<ns> cp=<ns> go=<condition in Go syntax, '~' for a space> qs=<quantile literals, comma separated> [px=… model only]
+//	    [verbose=1] [fbk=custom|default|resp|redir] [fx=0: no OnTripped/OnStandby registered, `effects` -> effects none]
+//	    (the Logger option always carries the parking logger)
 //	at <ns> | adv <ns>            -> ok
 //	start <id>                    -> pass <state> | fallback <state>   (pass: the request is now blocked inside the protected handler)
 //	finish <id> <code> [q=v,v,…]  -> done <code> <state>               (the protected handler answers <code>; latency = clock advance since start)
 //	burst <n> <step_ns>           -> burst <run-length outcomes, e.g. f3p1f2> <state>   (n arrivals, the clock advancing step_ns after each;
 //	                                 passed requests stay in flight until the scenario ends)
+//	park-warn <n>                 -> ok      (the next n requests that make the breaker log "is in error state" are parked inside that Warn call)
+//	start <id>                    -> parked  (when it blocks in the Warn; nothing else is printed: on the unchanged code it holds the breaker's lock)
+//	unpark <id>                   -> pass <state> | fallback <state>   (the request is decided now)
+//	finish <id> <code> …          -> unparked <pass|fallback> <state> done <code> <state>   when a request is parked *and holds the lock*
+//	                                 (probed with String(), 25 ms): the parked request is decided first, then the completion proceeds;
+//	                                 if the parked request does not hold the lock the completion simply proceeds and it stays parked
 //	state                         -> standby | tripped until=<ns> | recovering until=<ns>   (parsed from CircuitBreaker.String())
 //	effects                       -> effects tripped=<n> standby=<n>   (executions of the registered OnTripped / OnStandby side effects)
 //
@@ -36,6 +44,8 @@ import (
 var annotate bool
 
 type flight struct {
+	parked  chan struct{}
+	unpark  chan struct{}
 	entered chan struct{}
 	release chan int
 	done    chan struct{}
@@ -56,6 +66,63 @@ type h struct {
 	quantiles []float64
 	prevState string
 	nBurst    int
+	armed     int32
+	parking   *flight // the request being started: the one a Warn call may park
+	parkedID  string
+	fbk       string
+	noFx      bool
+}
+
+const parkProbe = 25 * time.Millisecond
+
+// parkLogger is given to the breaker through the Logger option; its Warn parks a request on demand.
+type parkLogger struct{ s *h }
+
+func (l *parkLogger) Debug(string, ...any) {}
+func (l *parkLogger) Info(string, ...any)  {}
+func (l *parkLogger) Error(string, ...any) {}
+func (l *parkLogger) Warn(msg string, _ ...any) {
+	if !strings.Contains(msg, "is in error state") || atomic.LoadInt32(&l.s.armed) <= 0 {
+		return
+	}
+	p := l.s.parking
+	if p == nil {
+		return
+	}
+	atomic.AddInt32(&l.s.armed, -1)
+	p.parked <- struct{}{}
+	<-p.unpark
+}
+
+func newFlight() *flight {
+	return &flight{parked: make(chan struct{}, 1), unpark: make(chan struct{}), entered: make(chan struct{}, 1),
+		release: make(chan int, 1), done: make(chan struct{}), rec: httptest.NewRecorder(), start: clock.Now().UTC()}
+}
+
+func (s *h) isFallback(rec *httptest.ResponseRecorder) bool {
+	switch s.fbk {
+	case "default":
+		return rec.Code == http.StatusServiceUnavailable && rec.Body.String() == http.StatusText(http.StatusServiceUnavailable)
+	case "resp":
+		return rec.Code == http.StatusTooManyRequests && rec.Body.String() == "fb-resp" && rec.Header().Get("Content-Type") == "text/x-fb"
+	case "redir":
+		return rec.Code == http.StatusFound && rec.Header().Get("Location") == "http://fallback.example/fb"
+	}
+	return rec.Header().Get("X-Fb") == "1" && rec.Code == http.StatusServiceUnavailable
+}
+
+// decided waits until a released (or never parked) request is inside the protected handler or answered.
+func (s *h) decided(id string, fl *flight) string {
+	select {
+	case <-fl.entered:
+		return "pass"
+	case <-fl.done:
+		delete(s.flights, id)
+		if s.isFallback(fl.rec) {
+			return "fallback"
+		}
+		return fmt.Sprintf("lost code=%d", fl.rec.Code)
+	}
 }
 
 var stateRe = regexp.MustCompile(`^CircuitBreaker\(state=([a-z]+)(?:, until=(.*))?\)$`)
@@ -136,13 +203,16 @@ func (s *h) op(f []string, line *string) string {
 	case f[0] == "adv" && len(f) == 2:
 		hx.AdvanceTo(hx.NowNs() + hx.Atoi64(f[1]))
 		return "ok"
+	case f[0] == "park-warn" && len(f) == 2:
+		atomic.StoreInt32(&s.armed, int32(hx.Atoi(f[1])))
+		return "ok"
 	case f[0] == "start" && len(f) == 2:
-		if _, ok := s.flights[f[1]]; ok {
+		if _, ok := s.flights[f[1]]; ok || s.parkedID != "" {
 			return "bad-op"
 		}
-		fl := &flight{entered: make(chan struct{}, 1), release: make(chan int, 1), done: make(chan struct{}),
-			rec: httptest.NewRecorder(), start: clock.Now().UTC()}
+		fl := newFlight()
 		s.flights[f[1]] = fl
+		s.parking = fl
 		req := httptest.NewRequest(http.MethodGet, "http://backend/", nil)
 		req.Header.Set("X-Id", f[1])
 		go func() {
@@ -151,11 +221,14 @@ func (s *h) op(f []string, line *string) string {
 		}()
 		res := ""
 		select {
+		case <-fl.parked:
+			s.parkedID = f[1]
+			return "parked"
 		case <-fl.entered:
 			res = "pass"
 		case <-fl.done:
 			delete(s.flights, f[1])
-			if fl.rec.Header().Get("X-Fb") == "1" && fl.rec.Code == http.StatusServiceUnavailable {
+			if s.isFallback(fl.rec) {
 				res = "fallback"
 			} else {
 				res = fmt.Sprintf("lost code=%d", fl.rec.Code)
@@ -164,7 +237,23 @@ func (s *h) op(f []string, line *string) string {
 		q := s.quiesce()
 		s.prevState = s.state()
 		return res + " " + s.prevState + q
+	case f[0] == "unpark" && len(f) == 2:
+		if s.parkedID == "" || s.parkedID != f[1] {
+			return "bad-op"
+		}
+		fl := s.flights[f[1]]
+		fl.start = clock.Now().UTC()
+		s.parkedID = ""
+		close(fl.unpark)
+		res := s.decided(f[1], fl)
+		q := s.quiesce()
+		s.prevState = s.state()
+		return res + " " + s.prevState + q
 	case f[0] == "burst" && len(f) == 3:
+		if s.parkedID != "" || atomic.LoadInt32(&s.armed) > 0 {
+			return "bad-op"
+		}
+		s.parking = nil
 		n, step := hx.Atoi(f[1]), hx.Atoi64(f[2])
 		var sb strings.Builder
 		last, run := byte(0), 0
@@ -176,8 +265,7 @@ func (s *h) op(f []string, line *string) string {
 		for i := 0; i < n; i++ {
 			s.nBurst++
 			id := fmt.Sprintf("~%d", s.nBurst)
-			fl := &flight{entered: make(chan struct{}, 1), release: make(chan int, 1), done: make(chan struct{}),
-				rec: httptest.NewRecorder(), start: clock.Now().UTC()}
+			fl := newFlight()
 			s.flights[id] = fl
 			req := httptest.NewRequest(http.MethodGet, "http://backend/", nil)
 			req.Header.Set("X-Id", id)
@@ -191,7 +279,7 @@ func (s *h) op(f []string, line *string) string {
 			case <-fl.done:
 				delete(s.flights, id)
 				c = 'f'
-				if !(fl.rec.Header().Get("X-Fb") == "1" && fl.rec.Code == http.StatusServiceUnavailable) {
+				if !s.isFallback(fl.rec) {
 					c = 'x'
 				}
 			}
@@ -208,10 +296,30 @@ func (s *h) op(f []string, line *string) string {
 		return "burst " + sb.String() + " " + s.prevState + q
 	case f[0] == "finish" && len(f) >= 3:
 		fl, ok := s.flights[f[1]]
-		if !ok {
+		if !ok || f[1] == s.parkedID {
 			return "bad-op"
 		}
 		code := hx.Atoi(f[2])
+		prefix := ""
+		if s.parkedID != "" {
+			// does the parked request hold the breaker's lock?  String() takes the read lock.
+			probe := make(chan string, 1)
+			go func() { probe <- s.state() }()
+			select {
+			case <-probe:
+				// no: the completion is not held up by it; it stays parked
+			case <-time.After(parkProbe):
+				// yes: nothing can overtake it; it is decided now, before the completion gets the lock
+				pid := s.parkedID
+				pf := s.flights[pid]
+				pf.start = clock.Now().UTC()
+				s.parkedID = ""
+				close(pf.unpark)
+				res := s.decided(pid, pf)
+				s.prevState = <-probe
+				prefix = "unparked " + res + " " + s.prevState + " "
+			}
+		}
 		// the shadow metrics see the same record at the same instant
 		s.shadow.Record(code, clock.Now().UTC().Sub(fl.start))
 		orc := s.oracle()
@@ -232,10 +340,19 @@ func (s *h) op(f []string, line *string) string {
 				mismatch = " oracle-mismatch=" + orc
 			}
 		}
-		return fmt.Sprintf("done %d %s%s%s", fl.rec.Code, st, q, mismatch)
+		return fmt.Sprintf("%sdone %d %s%s%s", prefix, fl.rec.Code, st, q, mismatch)
 	case f[0] == "state" && len(f) == 1:
+		if s.parkedID != "" {
+			return "bad-op"
+		}
 		return s.state()
 	case f[0] == "effects" && len(f) == 1:
+		if s.parkedID != "" {
+			return "bad-op"
+		}
+		if s.noFx {
+			return "effects none"
+		}
 		q := s.quiesce()
 		return fmt.Sprintf("effects tripped=%d standby=%d%s", atomic.LoadInt64(&s.nTripped), atomic.LoadInt64(&s.nStandby), q)
 	}
@@ -243,6 +360,12 @@ func (s *h) op(f []string, line *string) string {
 }
 
 func (s *h) Close() {
+	if s.parkedID != "" {
+		pf := s.flights[s.parkedID]
+		close(pf.unpark)
+		s.decided(s.parkedID, pf)
+		s.parkedID = ""
+	}
 	for id, fl := range s.flights {
 		fl.release <- 200
 		<-fl.done
@@ -279,13 +402,39 @@ func main() {
 				s.quantiles = append(s.quantiles, v)
 			}
 		}
-		cb, err := cbreaker.New(http.HandlerFunc(s.next), expr,
+		opts := []cbreaker.Option{
 			cbreaker.FallbackDuration(time.Duration(hx.KVInt64(cfg, "fb", 0))),
 			cbreaker.RecoveryDuration(time.Duration(hx.KVInt64(cfg, "rec", 0))),
 			cbreaker.CheckPeriod(time.Duration(hx.KVInt64(cfg, "cp", 0))),
-			cbreaker.Fallback(http.HandlerFunc(fallback)),
-			cbreaker.OnTripped(effect{&s.nTripped}),
-			cbreaker.OnStandby(effect{&s.nStandby}))
+			cbreaker.Logger(&parkLogger{s}),
+		}
+		if v, _ := hx.KV(cfg, "verbose"); v == "1" {
+			opts = append(opts, cbreaker.Verbose(true))
+		}
+		s.fbk, _ = hx.KV(cfg, "fbk")
+		switch s.fbk {
+		case "default":
+		case "resp":
+			rf, err := cbreaker.NewResponseFallback(cbreaker.Response{StatusCode: http.StatusTooManyRequests, ContentType: "text/x-fb", Body: []byte("fb-resp")})
+			if err != nil {
+				return nil, "err fallback"
+			}
+			opts = append(opts, cbreaker.Fallback(rf))
+		case "redir":
+			rf, err := cbreaker.NewRedirectFallback(cbreaker.Redirect{URL: "http://fallback.example/fb"})
+			if err != nil {
+				return nil, "err fallback"
+			}
+			opts = append(opts, cbreaker.Fallback(rf))
+		default:
+			opts = append(opts, cbreaker.Fallback(http.HandlerFunc(fallback)))
+		}
+		if v, _ := hx.KV(cfg, "fx"); v == "0" {
+			s.noFx = true
+		} else {
+			opts = append(opts, cbreaker.OnTripped(effect{&s.nTripped}), cbreaker.OnStandby(effect{&s.nStandby}))
+		}
+		cb, err := cbreaker.New(http.HandlerFunc(s.next), expr, opts...)
 		if err != nil {
 			if annotate {
 				return echoH{}, fail
